@@ -19,6 +19,10 @@ inductive Sk (α : Type) where
   | meanVar (s : Option (Sinks.MV α))
   | statistics (mn mx : Option α) (mv : Option (Sinks.MV α))
   | collect (l : List α)
+  /-- the unit-system sink wrapper (`sinks::unit_system::UnitSystem`) around a plain summing sink of the
+  harness (the library's own sinks finalise to `Option`, which the wrapper's `Finalize` impl does not accept):
+  values are unwrapped on the way in and the result is wrapped in the same unit on the way out -/
+  | unitSum (acc : α)
 
 variable {α : Type} [Add α] [Sub α] [Mul α] [Div α] [OfNat α 0] [OfNat α 1] [Classify.Cmp α]
 
@@ -57,6 +61,7 @@ def Sk.filter : Sk α → α → Sk α × List α
     let r := Sinks.mvStep mv x
     (.statistics (some mn) (some mx) (some r), [mn, mx, r.mean, r.m2])
   | .collect l, x => (.collect (l ++ [x]), l ++ [x])
+  | .unitSum acc, x => (.unitSum (acc + x), [acc + x])
 
 /-- `Sink::sink` -/
 def Sk.sink (k : Sk α) (x : α) : Sk α := (k.filter x).1
@@ -78,6 +83,7 @@ def Sk.finalize : Sk α → Option (List α)
     | some x, some y, some m => some ([x, y] ++ mvFinal m)
     | _, _, _ => none
   | .collect l => some l
+  | .unitSum acc => some [acc]
 
 def Sk.feed (k : Sk α) (xs : List α) : Sk α := xs.foldl Sk.sink k
 
